@@ -77,17 +77,19 @@ type chain struct {
 	pool    [][]byte // code pool
 	big     []string // account hashes of the large contracts
 	baseNum uint64
+	bias    float64
 }
 
 type chainOpts struct {
-	accounts   int
-	bigSlots   []int // slot counts of the large contracts
-	steps      int   // number of main-chain transitions
-	forkLen    int   // 0 = no fork
-	forkAt     int   // main-chain index of the fork point
-	decoys     int
-	maxOps     int
-	minedSlots bool // give the first large contract slots whose hashes have many leading zero bits
+	accounts        int
+	bigSlots        []int // slot counts of the large contracts
+	steps           int   // number of main-chain transitions
+	forkLen         int   // 0 = no fork
+	forkAt          int   // main-chain index of the fork point
+	decoys          int
+	maxOps          int
+	minedSlots      bool    // give the first large contract slots whose hashes have many leading zero bits
+	newContractBias float64 // extra probability that an operation creates a contract with storage
 }
 
 func randBalance(rng *rand.Rand) []byte {
@@ -304,7 +306,11 @@ func (c *chain) mutate(old map[string]*acct, maxOps int) (map[string]*acct, [][]
 	}
 	nops := 1 + c.rng.Intn(maxOps)
 	for i := 0; i < nops; i++ {
-		switch r := c.rng.Intn(20); {
+		r := c.rng.Intn(20)
+		if c.bias > 0 && c.rng.Float64() < c.bias {
+			r = 6
+		}
+		switch {
 		case r < 4: // balance / nonce change
 			k := pick(keys)
 			if k == "" || touched[k] || m[k] == nil {
@@ -327,6 +333,9 @@ func (c *chain) mutate(old map[string]*acct, maxOps int) (map[string]*acct, [][]
 			n := c.rng.Intn(15)
 			if c.rng.Intn(8) == 0 {
 				n = 40 + c.rng.Intn(80)
+			}
+			if c.bias > 0 && n == 0 {
+				n = 1 + c.rng.Intn(10)
 			}
 			a := newContract(c, n)
 			m[a.Hash] = a
@@ -607,7 +616,7 @@ func (c *chain) makeBAL(a, b *stateData, ghosts [][]byte) ([]byte, common.Hash) 
 
 func newChain(rng *rand.Rand, o chainOpts) *chain {
 	c := &chain{rng: rng, byRoot: map[common.Hash]*stateData{}, byHash: map[common.Hash]*stateData{},
-		codes: map[string][]byte{}, stCache: map[*acct]*refmpt.Trie{}, baseNum: uint64(100 + rng.Intn(1000))}
+		codes: map[string][]byte{}, stCache: map[*acct]*refmpt.Trie{}, baseNum: uint64(100 + rng.Intn(1000)), bias: o.newContractBias}
 	m := c.genesis(o)
 	s := c.build(m, nil, "main", c.baseNum, nil)
 	c.main = append(c.main, s)
